@@ -269,13 +269,7 @@ def rule_order_sources(ck):
     synthetic catalog is gridded on the forecast's own region (shared C13-D7)"""
     from .common import reordering_calls, parameter_writes
     P = ck.prog
-    ck.clause('D3')
-    for q in ('csep.core.regions.CartesianGrid2D.from_origins', 'csep.core.regions.CartesianGrid2D.__init__', 'csep.core.regions.CartesianGrid2D.from_dict',
-              'csep.core.regions.QuadtreeGrid2D.from_quadkeys'):
-        f = P.func(q)
-        bad = reordering_calls(P, f)
-        o = ck.ob('C20-D3.keeporder', f, 'cells keep the order they are given in', f.node)
-        (o.fail('`%s` reorders (or de-duplicates) the cells while the caller\'s rate rows stay in the caller\'s order' % u(bad[0])[:80]) if bad else o.ok())
+    rule_keeporder(ck)
     ck.clause('D2')
     for mod in ('csep.utils.calc', 'csep.utils.stats'):
         for f in P.funcs_in(mod):
@@ -294,4 +288,27 @@ def rule_order_sources(ck):
     c03.rule_pure_gridding(ck)
 
 
-RULES = [rule_updates, rule_equivariance, rule_cells, rule_observation, rule_order_sources]
+def rule_keeporder(ck):
+    """regions keep the cell order they are given (the caller's rate rows stay in the caller's order)"""
+    from .common import reordering_calls
+    P = ck.prog
+    ck.clause('D3')
+    for q in ('csep.core.regions.CartesianGrid2D.from_origins', 'csep.core.regions.CartesianGrid2D.__init__', 'csep.core.regions.CartesianGrid2D.from_dict',
+              'csep.core.regions.QuadtreeGrid2D.from_quadkeys'):
+        f = P.func(q)
+        bad = reordering_calls(P, f)
+        o = ck.ob('C20-D3.keeporder', f, 'cells keep the order they are given in', f.node)
+        (o.fail('`%s` reorders (or de-duplicates) the cells while the caller\'s rate rows stay in the caller\'s order' % u(bad[0])[:80]) if bad else o.ok())
+
+
+def rule_quantile_multiset(ck):
+    """the quantile reads the test distribution as a multiset: the empirical probabilities depend on the sample only through its sorted
+    form (shared C09-D1 order-only dependence, C09-D2 rank algebra - a range test against the first / last *stored* element makes the
+    quantile depend on the order of the synthetic catalogs)"""
+    from . import c09
+    ck.clause('D2 (shared C09-D1/D2: the sample enters the quantile sorted)')
+    c09.rule_rank(ck)
+    c09.rule_order_only(ck)
+
+
+RULES = [rule_updates, rule_equivariance, rule_cells, rule_observation, rule_order_sources, rule_quantile_multiset]
